@@ -357,9 +357,14 @@ def forwards_to_super(obj, cls=None, *args, **kwargs):
         self = None
     if self is None:
         return
-    inner = getattr(
-        super(_get_origin_class(obj, cls), self),
-        obj.__name__)
+    try:
+        inner = getattr(
+            super(_get_origin_class(obj, cls), self),
+            obj.__name__)
+    except AttributeError as exc:
+        raise ValueError(
+            'forwards_to_super: no {0!r} further up the classes of {1!r}'
+            .format(obj.__name__, self)) from exc
     return forwards(obj, inner, *args, **kwargs)
 
 
